@@ -5,6 +5,8 @@ type nat =
 | O
 | S of nat
 
+val option_map : ('a1 -> 'a2) -> 'a1 option -> 'a2 option
+
 val fst : ('a1 * 'a2) -> 'a1
 
 val snd : ('a1 * 'a2) -> 'a2
@@ -20,6 +22,8 @@ type comparison =
 
 val add : nat -> nat -> nat
 
+val sub : nat -> nat -> nat
+
 type positive =
 | XI of positive
 | XO of positive
@@ -28,6 +32,11 @@ type positive =
 type n =
 | N0
 | Npos of positive
+
+type z =
+| Z0
+| Zpos of positive
+| Zneg of positive
 
 module Nat :
  sig
@@ -48,6 +57,10 @@ module Coq_Pos :
  sig
   val succ : positive -> positive
 
+  val add : positive -> positive -> positive
+
+  val add_carry : positive -> positive -> positive
+
   val pred_double : positive -> positive
 
   type mask = Pos.mask =
@@ -64,6 +77,8 @@ module Coq_Pos :
   val sub_mask : positive -> positive -> mask
 
   val sub_mask_carry : positive -> positive -> mask
+
+  val mul : positive -> positive -> positive
 
   val size : positive -> positive
 
@@ -86,7 +101,11 @@ module N :
 
   val double : n -> n
 
+  val add : n -> n -> n
+
   val sub : n -> n -> n
+
+  val mul : n -> n -> n
 
   val compare : n -> n -> comparison
 
@@ -121,9 +140,26 @@ val ascii_of_N : n -> char
 
 val ascii_of_nat : nat -> char
 
+val n_of_digits : bool list -> n
+
+val n_of_ascii : char -> n
+
+val nat_of_ascii : char -> nat
+
 val map : ('a1 -> 'a2) -> 'a1 list -> 'a2 list
 
 val forallb : ('a1 -> bool) -> 'a1 list -> bool
+
+val seq : nat -> nat -> nat list
+
+module Z :
+ sig
+  val opp : z -> z
+
+  val to_nat : z -> nat
+
+  val of_N : n -> z
+ end
 
 val eqb0 : char list -> char list -> bool
 
@@ -160,6 +196,14 @@ val dec_N : n -> char list
 
 val dec_nat : nat -> char list
 
+val is_digit : char -> bool
+
+val parse_N_acc : char list -> n -> n option
+
+val parse_N : char list -> n option
+
+val parse_Z : char list -> z option
+
 type sexp =
 | SAtom of char list
 | SList of sexp list
@@ -181,6 +225,10 @@ val d_str : sexp -> char list option
 val d_list : (sexp -> 'a1 option) -> sexp list -> 'a1 list option
 
 val d_strs : sexp -> char list list option
+
+val d_Z : sexp -> z option
+
+val d_nat : sexp -> nat option
 
 val bad_input : sexp
 
@@ -258,5 +306,57 @@ val builtin_names : (char list * char list) list
 val documented : char list list
 
 val math_env : menv
+
+type expr =
+| EName of char list
+| EConst of char list
+| EAttr of expr * char list
+| ECall of expr * expr list
+| ELam of char list list * expr
+| EOp of char list * expr list
+
+type bval =
+| BAst of expr
+| BVal of nat
+
+type frame = (char list * bval) list
+
+type frames = frame list
+
+val lookup_frame : frame -> char list -> bval option
+
+val lookup : frames -> char list -> bval option
+
+val define_all : char list list -> bval list -> frame -> frame
+
+type cexpr =
+| CFree of char list
+| CVal of nat
+| CConst of char list
+| CAttr of cexpr * char list
+| CCall of cexpr * cexpr list
+| CLam of nat * cexpr
+| COp of char list * cexpr list
+
+val all_some : 'a1 option list -> 'a1 list option
+
+val resolve0 : nat -> frames -> nat -> expr -> cexpr option
+
+val empty_stack : frames
+
+val resolve_top : nat -> expr -> cexpr option
+
+val rewrite :
+  char list list -> char list list -> char list list -> expr -> expr
+
+val d_expr : sexp -> expr option
+
+val e_expr : expr -> sexp
+
+val e_cexpr : cexpr -> sexp
+
+val run_resolve : sexp -> sexp
+
+val run_rewrite : sexp -> sexp
 
 val dispatch : char list -> sexp -> sexp
